@@ -75,9 +75,68 @@ def streams(rng, tier):
 
     st = Stream("derive-compat", "dgen", [r[0] for r in rows], model_ops=[r[1] for r in rows], spec_ops=[r[2] for r in rows], judge=base.guard_pruned(judge, tier), rule=RULE)
     st.shrinkable = False
-    return [st]
+    return [st, unknown_fields_stream(rng, tier, c, a)]
+
+
+RAW_UNKNOWN = ["00", "f6", "6161", "8201f6", "a10102", "c11a65a4f2c0", "9fff", "bfff", "9f01ff", "5f4101ff", "7f6161ff",
+               "829f01ff8102", "839f01ff00818102", "83bf0102ff9f00ff8201a0", "82009f8202039fffff", "9f829f00ff8101ff", "a1019f8200bf0102ffff",
+               "d9d9f79f9fffff", "8382009fff8281009f8100ff00", "84000102bf009f01ff0280ff", "f97e00", "fb7ff8000000000001", "3bffffffffffffffff"]
+
+
+def unknown_fields_stream(rng, tier, c, a):
+    """"fields unknown to the reader are ignored whatever their content": the encoding of a value with extra fields appended by hand —
+    array encoding: null up to the highest declared index, then raw items; map encoding: entries under unused keys — holding ANY
+    well-formed item (indefinite containers inside definite ones, chunked strings, tags, floats), with bytes following"""
+    from verifkit import typegen
+    rows = []
+    n_per = 3 if tier == "quick" else 12
+    for name, ty, vals in c.cases:
+        if ty.kind != "st" or ty.transparent or not vals:
+            continue
+        live = [f for f in ty.fields if not f.skip]
+        maxidx = max([f.idx for f in live], default=-1)
+        enc = dg.eff_enc(ty.enc)
+        if enc == "a" and maxidx > 40:
+            continue
+        for v in vals[:n_per]:
+            if dg.null_clash(ty, v):
+                continue
+            b = dg.py_encode(ty, v)
+            it = typegen.walk(b, 0)
+            pre = 0
+            while it is not None and it.major == 6:
+                it = it.kids[0]
+            if it is None or it.indef or it.major != (4 if enc == "a" else 5):
+                continue
+            raws = [bytes.fromhex(rng.choice(RAW_UNKNOWN)) for _ in range(rng.randint(1, 3))]
+            if enc == "a":
+                pad = max(it.arg, maxidx + 1) - it.arg
+                body = b[it.hend:it.end] + b"\xf6" * pad + b"".join(raws)
+                nb = b[:it.start] + dg.head(4, it.arg + pad + len(raws)) + body + b[it.end:]
+            else:
+                used = {f.idx for f in live}
+                keys = [k for k in (4000000000, 77, 300, 70000, 23, 24) if k not in used][:len(raws)]
+                raws = raws[:len(keys)]
+                body = b[it.hend:it.end] + b"".join(dg.head(0, k) + r for k, r in zip(keys, raws))
+                nb = b[:it.start] + dg.head(5, it.arg + len(raws)) + body + b[it.end:]
+            tail = rng.choice([b"", b"\x07", b"\xff"])
+            rows.append((f"ddec {name} {(nb + tail).hex()} {a} #n={len(nb)} #plain={b.hex() or '-'}", f"ddec {dg.proto(ty)} {(nb + tail).hex()}"))
+    def judge_unknown(op, impl, model, spec):
+        n = int([x for x in op.split(" ") if x.startswith("#n=")][0][3:])
+        iw = impl.split(" ")
+        # the reader returns a value and stands exactly behind the item; which value: the model's (the proved decoder), which ignores the extras
+        if len(iw) < 3 or iw[0] != "ok" or iw[2] != str(n):
+            return "violation"
+        return "ok" if impl == model else "violation"
+    st = Stream("unknown-fields-any-content", "dgen", [r[0] for r in rows], model_ops=[r[1] for r in rows], judge=base.guard_pruned(judge_unknown, tier),
+                rule="ddec <struct> <its encoding with extra fields holding arbitrary well-formed items appended by hand> followed by other bytes: the value is read as if "
+                     "the extras were not there and the decoder stops exactly behind the item (== the model, whose skip is C06's)")
+    st.shrinkable = False
+    return st
 
 
 def replay_streams(rp):
     op = rp["original_op"] if "original_op" in rp else rp["op"]
+    if op.startswith("ddec "):
+        return [Stream("replay", "dgen", [op], model_ops=[rp["model_op"]], judge=lambda o, i, m, s: "ok" if i == m and i.startswith("ok") else "violation")]
     return [Stream("replay", "dgen", [op], model_ops=[rp["model_op"]], spec_ops=[rp["spec_op"]] if rp.get("spec_op") else None, judge=judge)]
